@@ -18,9 +18,11 @@ import (
 	"github.com/openGemini/openGemini/engine/immutable"
 	"github.com/openGemini/openGemini/engine/index/tsi"
 	"github.com/openGemini/openGemini/lib/cpu"
+	"github.com/openGemini/openGemini/lib/util/lifted/vm/protoparser/influx"
 	kit "github.com/openGemini/openGemini/lib/verifkit"
 	"github.com/openGemini/openGemini/lib/verifkit/crashfs"
 	"github.com/openGemini/openGemini/lib/verifkit/sched"
+	"github.com/savsgio/dictpool"
 )
 
 // C04: concurrent writes, flushes, compactions, queries. Real goroutines under the controlled
@@ -411,6 +413,9 @@ func c04Body(sc c04Scenario, baseDir string, x *sched.Exec) (kind, detail string
 	if err != nil {
 		return "harness_open_error", err.Error(), true
 	}
+	if err := c04PrecreateSeries(v); err != nil {
+		return "harness_preload_error", err.Error(), true
+	}
 	m := vModel{}
 	l := &c04Log{}
 	for i, op := range sc.Preload {
@@ -481,6 +486,28 @@ func c04Body(sc c04Scenario, baseDir string, x *sched.Exec) (kind, detail string
 		v.sh = nil
 	}
 	return "", "", false
+}
+
+// c04PrecreateSeries creates the series of the scenario alphabet in the index one at a time, in a fixed order,
+// before the preload. Without it the first batch that carries two new series (We: host=a and host=b) hands them to
+// two different queue goroutines of the mergeset index (engine/index/tsi, hash-partitioned, not under the
+// scheduler), which race for the next sequence number: in 1.5-10 % of the executions the two series ids came out
+// swapped. Series ids order the chunks inside every TSSP file, so a merge then walks the series in the other order
+// (WriteOriginal for b before/after the column-wise merge of a) and a recorded prefix of choices no longer meets
+// the same points - the "replay divergence" of S3. A series that exists in the index before its first point is an
+// ordinary state (all points expired or dropped); no scenario thread creates a series concurrently (every
+// concurrent write goes to host=a, which every preload has written).
+func c04PrecreateSeries(v *vShard) error {
+	for _, h := range vHosts {
+		rows := []influx.Row{vRow(vPoint{K: vKey{"m", h, vT(1)}, V: map[string]vVal{"f": vFloat(0)}})}
+		var d dictpool.Dict
+		d.Set("m", &rows)
+		if err := v.sh.indexBuilder.CreateIndexIfNotExists(&d, true); err != nil {
+			return err
+		}
+	}
+	v.IndexBarrier()
+	return nil
 }
 
 func c04Classify(bad []string) string {
